@@ -58,7 +58,10 @@ def run(spec, out):
         case = G.generate(rng, nprng, family=rng.choice(fams), P={"maxlen": spec["maxlen"], "ell_p": 0.2})
         b = rng.choice([None, None, "numpy", "numpy.numpylike", "numpy.einsum"])
         risk = G.risk(case)
-        for label, short, long in sugar.pairs(case, rng):
+        plist = sugar.pairs(case, rng)
+        if rng.random() < 0.25:
+            plist = plist + sugar.constructed_nested(rng, nprng)
+        for label, short, long in plist:
             if label == "__transform_error__":
                 out.count("transform_errors")
                 out.info("transform_error", short)
@@ -108,7 +111,7 @@ def run(spec, out):
 def finalize(agg, tier, seed):
     c = agg.counters
     rules = ["implicit-vs-explicit-output", "number-vs-named-axis", "unbracketed-vs-bracketed", "ellipsis-vs-written-out", "extra-spaces", "rearrange-vs-id", "adjacent-brackets-merged",
-             "anonymous-vs-named-ellipsis", "scalar-vs-tuple-size", "keepdims-vs-parentheses", "unit-coordinate-bracket", "nested-arrow", "argfind-unit-bracket", "ambiguous-implicit-output-rejected"]
+             "anonymous-vs-named-ellipsis", "scalar-vs-tuple-size", "keepdims-vs-parentheses", "unit-coordinate-bracket", "nested-arrow", "argfind-unit-bracket", "ambiguous-implicit-output-rejected", "nested-comma"]
     for r in rules:
         if c.get(f"agree:{r}", 0) < 5:
             agg.inconclusive.append(f"rule {r}: only {c.get(f'agree:{r}', 0)} agreeing pairs observed")
